@@ -4,7 +4,7 @@ package main
 
 // The tie of MiniJS STATEMENTS (coq/Model/MiniJS.v: js_exec) to V8: random statements of the subset of
 // C04_gen_correct_partial_stmt (raw text, print with directives, let in both forms, if / elseif / else, switch with case
-// groups and default, foreach / ifempty and for over range() with index / isFirst / isLast of the enclosing loops, css, nested blocks) are given to the model (op minijs_stmt), which returns the JavaScript
+// groups and default, foreach / ifempty and for over range() with index / isFirst / isLast of the enclosing loops, css, msg without a bundle -- without plural or one plural with numeric cases --, nested blocks) are given to the model (op minijs_stmt), which returns the JavaScript
 // text the generator model writes for them (sprint (sgen s)), the text the subset semantics writes (sout)
 // and the variables after MiniJS executed the statement (js_exec) from an empty buffer; node runs the same
 // text inside a function that declares the same variables (soyutils.js loaded), and must end with the same
@@ -84,9 +84,45 @@ func (g *cexprGen) msg() string {
 	return "(smsg (blk " + strings.Join(items, " ") + "))"
 }
 
+// the children of a message body as items of a block (raw text, print, call)
+func (g *cexprGen) msgItems() string {
+	var items []string
+	for i := g.r.Intn(3); i > 0; i-- {
+		switch g.r.Intn(3) {
+		case 0:
+			items = append(items, "(sraw "+sx(g.r.Pick([]string{"one ", "b c", "<i>", "?", "it's"}))+")")
+		case 1:
+			items = append(items, "(sprint "+g.expr(g.r.Intn(3), 2)+")")
+		default:
+			items = append(items, g.call(0))
+		}
+	}
+	return "(blk " + strings.Join(items, " ") + ")"
+}
+
+// {msg desc=".."}{plural v}{case z}..{default}..{/plural}{/msg} without a bundle (cstmt SMsgPl): the switch soyjs writes, without
+// "break;" after the default clause; now and then a value that is not an integer, or a let in a body (outside the subset)
+func (g *cexprGen) plural() string {
+	q := "(qdflt " + g.msgItems() + ")"
+	if g.r.Chance(4) {
+		q = "(qdflt (blk (slet " + sx("y") + " (cint 1))))"
+	}
+	for i := g.r.Intn(4); i > 0; i-- {
+		q = "(qcase " + g.r.Pick([]string{"0", "1", "2", "7", "-3", "1000"}) + " " + g.msgItems() + " " + q + ")"
+	}
+	v := g.expr(0, 1)
+	if g.r.Chance(8) {
+		v = g.expr(3, 1)
+	}
+	return "(smsgpl " + sx("n") + " " + v + " " + q + ")"
+}
+
 func (g *cexprGen) stmt(d int) string {
 	if g.r.Chance(8) {
 		return g.call(d)
+	}
+	if g.r.Chance(4) {
+		return g.plural()
 	}
 	if g.r.Chance(4) {
 		return g.msg()
@@ -320,6 +356,9 @@ func c04StmtTie(e *env, n int) {
 				if strings.Contains(it.text, f) {
 					e.res.Histogram["minijs-stmt:has:"+strings.TrimSpace(f)]++
 				}
+			}
+			if strings.Contains(it.req, "(smsgpl ") {
+				e.res.Histogram["minijs-stmt:plural:"+cls+":"+it.cls]++
 			}
 			cs := map[string]string{"statement": it.req, "javascript": it.text, "variables": c04StmtJSVars}
 			var modelVars [][]interface{}
